@@ -29,7 +29,7 @@ txt += ("\nLessons that were turned into input classes everywhere they apply: in
         "edited chain objects, edited start vectors: stale caches keyed by object identity), results HELD while later calls are made and verified only afterwards\n"
         "(`Ctx.hold`: shared output buffers), hostile operator ids (negative ids -- `hash(-1) == hash(-2)` in CPython --, huge ids, non-zero identity id) and\n"
         "charges from -2..2, defective / highly non-normal matrices for the general Krylov branch, sequences of orthonormalisations with edits in between;\n"
-        "from round 4 (12 of 20 missed at first -- the agents were told what the checks explore and asked for triggers outside it): magnitudes far outside the\n"
+        "from round 4 (15 of 20 missed at first -- the agents were told what the checks explore and asked for triggers outside it): magnitudes far outside the\n"
         "unit range but inside the floating-point range (tensors scaled by exact powers of two up to 2^+-830, matrices up to 1e+-280, chains of hundreds of sites whose\n"
         "norm drifts towards under/overflow; this also exposed defect F9), charges beyond 2^53, values that coincide with internal constants (parameters equal to operator\n"
         "ids, coefficients exactly 1.0, integer parameter grids, round parameter points), exact or approximate symmetry of the DATA (exactly antisymmetric integrals,\n"
